@@ -142,6 +142,28 @@ theorem printSorted_spec (g : BuildGraph) (idx : List Nat) :
   refine ⟨this.1, fun x => ?_⟩
   rw [printSorted, this.2 x, mem_labelStrings]
 
+theorem mem_foldl_dedup (l acc : List Nat) (x : Nat) :
+    x ∈ l.foldl (fun acc x => if acc.contains x then acc else acc ++ [x]) acc ↔ x ∈ acc ∨ x ∈ l := by
+  induction l generalizing acc with
+  | nil => simp
+  | cons a t ih =>
+    simp only [List.foldl_cons, List.mem_cons]
+    rw [ih]
+    by_cases h : a ∈ acc
+    · simp only [List.contains_iff_mem, h, ↓reduceIte]
+      constructor
+      · rintro (h1 | h1); exact Or.inl h1; exact Or.inr (Or.inr h1)
+      · rintro (h1 | rfl | h1); exact Or.inl h1; exact Or.inl h; exact Or.inr h1
+    · simp only [List.contains_iff_mem, h, ↓reduceIte, List.mem_append, List.mem_singleton]
+      constructor
+      · rintro ((h1 | rfl) | h1); exact Or.inl h1; exact Or.inr (Or.inl rfl); exact Or.inr (Or.inr h1)
+      · rintro (h1 | rfl | h1); exact Or.inl (Or.inl h1); exact Or.inl (Or.inr rfl); exact Or.inr h1
+
+theorem mem_dedupNodes (l : List Nat) (x : Nat) : x ∈ dedupNodes l ↔ x ∈ l := by
+  unfold dedupNodes
+  rw [mem_foldl_dedup]
+  simp
+
 /-- labels with colon-free package paths print injectively -/
 theorem toBytes_inj (l1 l2 : Label) (h1 : cColon ∉ l1.pkg) (h2 : cColon ∉ l2.pkg)
     (h : l1.toBytes = l2.toBytes) : l1 = l2 := by
